@@ -685,10 +685,71 @@ def scenarios(ctx):
         scs.append(deep_cli(rng))
     for i in range(4 if q else 60):
         scs.append(writer_sc(rng))
+    for i in range(12 if q else 300):
+        scs.append({"kind": "gap", "seed": rng.randrange(10 ** 9), "q": rng.choice([0, 0, 10]), "constant": rng.choice([0.0, 0.0, 0.1])})
     return scs
 
 
+def _gap_events(sc):
+    """`whatshap genotype` (default priors) on 5 SNVs of which the middle one is covered ONLY by short reads that see no other
+    variant (so it is not part of the HMM), and the same run without that record: the calls of the other four variants must
+    be identical - what a variant outside the HMM looks like cannot influence the variants inside."""
+    import logging
+    import random
+    from .. import world
+    from whatshap.cli.genotype import run_genotype
+    rng = random.Random(sc["seed"])
+    d = tempfile.mkdtemp(dir=_scratch(), prefix="c08g-")
+    try:
+        length = 900
+        ref = world.random_reference(rng, length)
+        pos = [100, 160, 450, 700, 760]
+        vs = [world.make_variant(rng, ref, p, "snv") for p in pos]
+        hp = [[rng.randint(0, 1) for _ in vs] for _ in range(2)]
+        for j in (0, 1, 3, 4):
+            if rng.random() < 0.7:
+                hp[1][j] = 1 - hp[0][j]
+        mid = rng.choice([[0, 0], [1, 1], [1, 1], [0, 1]])       # what the short reads show at the middle variant
+        hp[0][2], hp[1][2] = mid
+        reads, n = [], 0
+        for h in (0, 1):
+            hap = world.Haplotype(ref, vs, hp[h])
+            for (a, b) in ((60, 220), (660, 820)):
+                for _ in range(rng.randint(2, 4)):
+                    p0, cig, seq = hap.read(a + rng.randint(0, 20), b - rng.randint(0, 20))
+                    qual = "".join(chr(33 + rng.choice([10, 10, 20, 30])) for _ in seq)
+                    reads.append({"name": f"r{n}", "ref": 0, "pos": p0, "cigar": world.cigar_str(cig), "seq": seq, "qual": qual, "rg": "A", "mapq": 60})
+                    n += 1
+            for _ in range(rng.randint(3, 6)):
+                p0, cig, seq = hap.read(430 + rng.randint(0, 10), 480 - rng.randint(0, 10))
+                reads.append({"name": f"r{n}", "ref": 0, "pos": p0, "cigar": world.cigar_str(cig), "seq": seq, "qual": "I" * len(seq), "rg": "A", "mapq": 60})
+                n += 1
+        world.write_bam(os.path.join(d, "in.bam"), [("chr1", length)], reads, read_groups=[{"ID": "A", "SM": "A"}])
+        recs = [{"chrom": "chr1", "pos": v.pos + 1, "id": f"v{v.pos}", "ref": v.ref, "alt": v.alt, "fmt": ["GT"], "calls": [["0/1"]]} for v in vs]
+        outs = {}
+        logging.disable(logging.CRITICAL)
+        try:
+            for tag, rr in (("full", recs), ("without", recs[:2] + recs[3:])):
+                world.write_vcf(os.path.join(d, tag + ".vcf"), ["A"], [("chr1", length)], rr)
+                run_genotype([os.path.join(d, "in.bam")], os.path.join(d, tag + ".vcf"), output=os.path.join(d, tag + ".out.vcf"),
+                             gt_qual_threshold=sc["q"], constant=sc["constant"], write_command_line_header=False)
+                _, _, orecs = world.read_vcf_text(os.path.join(d, tag + ".out.vcf"))
+                outs[tag] = {r["pos"]: [r["calls"][0].get(k, ".") for k in ("GT", "GQ", "GL")] for r in orecs}
+        except Exception as e:
+            return [{"ev": "Gap", "exc": type(e).__name__, "a": [], "b": []}]
+        finally:
+            logging.disable(logging.NOTSET)
+        keep = [v.pos + 1 for k, v in enumerate(vs) if k != 2]
+        intern = {}
+        enc = lambda t: intern.setdefault("|".join(t), len(intern) + 1)
+        return [{"ev": "Gap", "exc": "", "a": [enc(outs["full"][p]) for p in keep], "b": [enc(outs["without"][p]) for p in keep]}]
+    finally:
+        shutil.rmtree(d, ignore_errors=True)
+
+
 def drive(sc):
+    if sc["kind"] == "gap":
+        return _gap_events(sc)
     if sc["kind"] == "determine":
         return _determine_events(sc)
     if sc["kind"] == "cli":
@@ -722,6 +783,8 @@ def post(ctx, scs, per_tid):
 def nontrivial(sc, events):
     if sc["kind"] == "determine":
         return True
+    if sc["kind"] == "gap":
+        return any(e.get("ev") == "Gap" and not e["exc"] and len(set(e["a"])) > 1 for e in events)
     if sc["kind"] == "writer":
         return any(e.get("mp", 0) > 150000 for e in events)
     if sc["kind"] == "hmm":
@@ -741,6 +804,8 @@ def signature(sc, events, clause):
         return "determine_genotype"
     if sc["kind"] == "writer":
         return "GenotypeVcfWriter.write_genotypes direct"
+    if sc["kind"] == "gap":
+        return "cli twin run with / without a variant outside the HMM"
     files = sorted({e.get("file", "") for e in events if e.get("ev") in ("Call", "Run")})
     return f"cli{' deep' if sc.get('deep') else ''} trio={sc['trio']} nopriors={sc['nopriors']} files={','.join(files)}"
 
